@@ -78,14 +78,14 @@ theorem next_readout_is_sum (g : Geom) (ops : List (Op K)) :
 theorem sumCharges_pixel (g : Geom) (l : List (List K × K × K)) (hv : Valid g l) (i : Nat)
     (hi : i < g.npix) :
     (sumCharges g l).getD i 0 =
-      (l.map fun x => (binND g.s g.dims x.1).getD i 0 * x.2.1 * x.2.2).sum := by
+      (l.map fun x => (binNDs g.ss g.dims x.1).getD i 0 * x.2.1 * x.2.2).sum := by
   induction l using List.rec with
   | nil => simp [sumCharges_nil, vzero, List.getD_eq_getElem?_getD, hi]
   | cons x l ih =>
     -- peel the *last* element instead: restate through the fold with a general start value
     have key : ∀ (l : List (List K × K × K)) (a : List K), a.length = g.npix → Valid g l →
-        (l.foldl (fun a (x : List K × K × K) => vadd a (charge (binND g.s g.dims x.1) x.2.1 x.2.2)) a).getD i 0
-          = a.getD i 0 + (l.map fun x => (binND g.s g.dims x.1).getD i 0 * x.2.1 * x.2.2).sum := by
+        (l.foldl (fun a (x : List K × K × K) => vadd a (charge (binNDs g.ss g.dims x.1) x.2.1 x.2.2)) a).getD i 0
+          = a.getD i 0 + (l.map fun x => (binNDs g.ss g.dims x.1).getD i 0 * x.2.1 * x.2.2).sum := by
       intro l
       induction l with
       | nil => intro a _ _; simp
@@ -96,9 +96,9 @@ theorem sumCharges_pixel (g : Geom) (l : List (List K × K × K)) (hv : Valid g 
         simp only [List.foldl_cons, List.map_cons, List.sum_cons]
         rw [ih' _ (by rw [vadd_length, ha, hc]; simp) (fun z hz => hv' z (by simp [hz])),
           vadd_getD _ _ _ (by omega) (by omega)]
-        have : (charge (binND g.s g.dims y.1) y.2.1 y.2.2).getD i 0
-            = (binND g.s g.dims y.1).getD i 0 * y.2.1 * y.2.2 := by
-          have hb : i < (binND g.s g.dims y.1).length := by rw [binND_length _ _ _ hy]; exact hi
+        have : (charge (binNDs g.ss g.dims y.1) y.2.1 y.2.2).getD i 0
+            = (binNDs g.ss g.dims y.1).getD i 0 * y.2.1 * y.2.2 := by
+          have hb : i < (binNDs g.ss g.dims y.1).length := by rw [binNDs_length _ _ g.hl _ hy]; exact hi
           simp [charge, List.getD_eq_getElem?_getD, List.getElem?_eq_getElem hb]
         rw [this]; ring
     have := key (x :: l) (vzero g.npix) (by simp [vzero]) hv
@@ -168,7 +168,7 @@ exposure.  (Which fine pixels `bin(p)[i]` adds up: `readout_pixel_index` below.)
 theorem readout_pixel (g : Geom) (ops : List (Op K)) (k : Nat) (e : List (List K × K × K))
     (he : (exposures g [] ops)[k]? = some e) (i : Nat) (hi : i < g.npix) :
     ∃ img, (images (run g ({} : St K) ops).2)[k]? = some img ∧
-      img.getD i 0 = (e.map fun x => (binND g.s g.dims x.1).getD i 0 * x.2.1 * x.2.2).sum := by
+      img.getD i 0 = (e.map fun x => (binNDs g.ss g.dims x.1).getD i 0 * x.2.1 * x.2.2).sum := by
   refine ⟨sumCharges g e, ?_, ?_⟩
   · rw [readout_is_sum, List.getElem?_map, he]; rfl
   · exact sumCharges_pixel g e
@@ -182,7 +182,7 @@ theorem readout_pixel_index (g : Geom) (ops : List (Op K)) (k : Nat) (e : List (
     (he : (exposures g [] ops)[k]? = some e) (c : List Nat) (hc : InBounds g.dims c) :
     ∃ img, (images (run g ({} : St K) ops).2)[k]? = some img ∧
       img.getD (flatIdx g.dims c) 0 = (e.map fun x =>
-        boxSums g.dims (g.dims.map fun _ => g.s) c (fun f => x.1.getD f 0) * x.2.1 * x.2.2).sum := by
+        boxSums g.dims g.ss c (fun f => x.1.getD f 0) * x.2.1 * x.2.2).sum := by
   obtain ⟨img, h1, h2⟩ := readout_pixel g ops k e he (flatIdx g.dims c) (flatIdx_lt g.dims c hc)
   refine ⟨img, h1, ?_⟩
   rw [h2]
@@ -190,22 +190,30 @@ theorem readout_pixel_index (g : Geom) (ops : List (Op K)) (k : Nat) (e : List (
   apply List.map_congr_left
   intro x hx
   have hv := exposures_valid g ops [] (by intro x hx; simp at hx) e (List.mem_of_getElem? he) x hx
-  rw [binND_getD g.s g.dims c hc x.1 hv]
+  rw [binNDs_getD g.dims g.ss c g.hl hc x.1 hv]
 
-example : WellSized ({ dims := [1, 2], s := 2 } : Geom)
+example : WellSized (Geom.uniform [1, 2] 2)
     ([.readOut, .integrate [1, 2, 3, 4, 5, 6, 7, 8] (1/2) 3, .readOut] : List (Op Rat)) := by decide
 
-/-- **Binning conserves counts** (`statistic='sum'`, any shape, any factor). -/
-theorem binning_conserves_counts (s : Nat) (dims : List Nat) (p : List K)
-    (h : p.length = fineSize s dims) : (binND s dims p).sum = p.sum :=
-  binND_sum s dims p h
+/-- **Binning conserves counts** (`statistic='sum'`, any shape, any per-axis factors): stated about the binning the
+detector model executes, `binNDs g.ss g.dims`. -/
+theorem binning_conserves_counts (g : Geom) (p : List K) (h : p.length = g.ninput) :
+    (binNDs g.ss g.dims p).sum = p.sum :=
+  binNDs_sum g.ss g.dims g.hl p h
+
+/-- one common factor `s` (`subsamping=<scalar>`) is the per-axis detector with `s` on every axis: its binning is
+`binND s`, its input grid has `fineSize s dims` samples -/
+theorem uniform_is_scalar_factor (dims : List Nat) (s : Nat) (p : List K) :
+    binNDs (Geom.uniform dims s).ss (Geom.uniform dims s).dims p = binND s dims p ∧
+      (Geom.uniform dims s).ninput = fineSize s dims :=
+  ⟨binNDs_replicate s dims p, fineSizes_replicate s dims⟩
 
 /-- total counts of a read-out = `Σ_j total(p_j)·dt_j·w_j`: nothing is lost or created by the
 sub-pixel binning or by the accumulation. -/
 theorem readout_total (g : Geom) (l : List (List K × K × K)) (hv : Valid g l) :
     (sumCharges g l).sum = (l.map fun x => x.1.sum * x.2.1 * x.2.2).sum := by
   have key : ∀ (l : List (List K × K × K)) (a : List K), a.length = g.npix → Valid g l →
-      (l.foldl (fun a (x : List K × K × K) => vadd a (charge (binND g.s g.dims x.1) x.2.1 x.2.2)) a).sum
+      (l.foldl (fun a (x : List K × K × K) => vadd a (charge (binNDs g.ss g.dims x.1) x.2.1 x.2.2)) a).sum
         = a.sum + (l.map fun x => x.1.sum * x.2.1 * x.2.2).sum := by
     intro l
     induction l with
@@ -217,8 +225,8 @@ theorem readout_total (g : Geom) (l : List (List K × K × K)) (hv : Valid g l) 
       simp only [List.foldl_cons, List.map_cons, List.sum_cons]
       rw [ih _ (by rw [vadd_length, ha, hc]; simp) (fun z hz => hv' z (by simp [hz])),
         vadd_sum _ _ (by rw [ha, hc])]
-      have : (charge (binND g.s g.dims y.1) y.2.1 y.2.2).sum = y.1.sum * y.2.1 * y.2.2 := by
-        rw [← binND_sum g.s g.dims y.1 hy]
+      have : (charge (binNDs g.ss g.dims y.1) y.2.1 y.2.2).sum = y.1.sum * y.2.1 * y.2.2 := by
+        rw [← binNDs_sum g.ss g.dims g.hl y.1 hy]
         simp only [charge]
         rw [show (fun x => x * y.2.1 * y.2.2) = (fun x => x * (y.2.1 * y.2.2)) from by funext x; ring,
           List.sum_map_mul_right]
@@ -355,7 +363,7 @@ theorem off_setters_eq_noiseless [DecidableEq K] (g : Geom) (ops : List (POp K))
 /-- the seeded-defect shape, concretely: scalar 0 (unit map) → explicit map → scalar 0 again: the
 last read-out is flagged "off" and equals the noiseless image -/
 example :
-    pReads ({ dims := [2], s := 1 } : Geom)
+    pReads (Geom.uniform [2] 1)
       ({ flat := [1, 1], dark := [0, 0], sigma := [0, 0] } : PSt Rat)
       [.setFlat [2, 3], .integrate [1, 1] 1 1, .readOut, .setFlat [1, 1], .integrate [1, 2] 1 1, .readOut]
       = [(false, .image [2, 3]), (true, .image [1, 2])] := by decide +kernel
@@ -462,15 +470,15 @@ in changes without the caller writing to it, and the image handed out *is* that 
 model of the real code leaves the buffer alone and hands out a new array.  (`caller_arrays_untouched` is
 therefore not true of every step function.) -/
 theorem Bad_detector_aliases :
-    let g : Geom := { dims := [2], s := 1 }
+    let g : Geom := Geom.uniform [2] 1
     let ops : List (ROp Rat) := [.alloc [1, 2], .integrate 0 2 1, .readOut]
     (rRunBad g {} ops).1.at 0 = [2, 4] ∧ (rRunBad g {} ops).2 = [.ref 0, .done, .ref 0] ∧
     (rRun g {} ops).1.at 0 = [1, 2] ∧ (rRun g {} ops).2 = [.ref 0, .done, .ref 2] := by
   decide +kernel
 
 /-- the hypotheses of `caller_arrays_untouched` are satisfiable, and a write to another array is allowed -/
-example : RInv (rRun ({ dims := [2], s := 1 } : Geom) ({} : RSt Rat) [.alloc [1, 2], .integrate 0 2 1]).1 ∧
-    (0 : Nat) ∈ (rRun ({ dims := [2], s := 1 } : Geom) ({} : RSt Rat) [.alloc [1, 2], .integrate 0 2 1]).1.known :=
+example : RInv (rRun (Geom.uniform [2] 1) ({} : RSt Rat) [.alloc [1, 2], .integrate 0 2 1]).1 ∧
+    (0 : Nat) ∈ (rRun (Geom.uniform [2] 1) ({} : RSt Rat) [.alloc [1, 2], .integrate 0 2 1]).1.known :=
   ⟨by
     have h0 : RInv ({} : RSt Rat) := RInv.init
     exact rStep_inv _ _ _ (rStep_inv _ _ _ h0), by decide +kernel⟩
@@ -486,23 +494,23 @@ theorem Old_readOut_fails_when_empty (g : Geom) :
 /-- D29: on the unrepaired tree a detector of 1 pixel with subsampling 2 (one axis) returns a
 2-pixel image. -/
 theorem Old_integrate_ignores_subsampling :
-    images (runOld ({ dims := [1], s := 2 } : Geom) ({} : St Rat) [.integrate [1, 2] 1 1, .readOut]).2
+    images (runOld (Geom.uniform [1] 2) ({} : St Rat) [.integrate [1, 2] 1 1, .readOut]).2
       = [[1, 2]] ∧
-    images (run ({ dims := [1], s := 2 } : Geom) ({} : St Rat) [.integrate [1, 2] 1 1, .readOut]).2
+    images (run (Geom.uniform [1] 2) ({} : St Rat) [.integrate [1, 2] 1 1, .readOut]).2
       = [[3]] := by
   constructor <;> decide +kernel
 
 /-! ### non-vacuity: a concrete history -/
 
 example :
-    images (run ({ dims := [1, 2], s := 2 } : Geom) ({} : St Rat)
+    images (run (Geom.uniform [1, 2] 2) ({} : St Rat)
       [.readOut, .integrate [1, 2, 3, 4, 5, 6, 7, 8] (1/2) 3, .integrate [1, 1, 1, 1, 1, 1, 1, 1] 2 1,
        .readOut, .readOut]).2 = [[0, 0], [29, 41], [0, 0]] := by decide +kernel
 
 /-- `allOff` is what the driver builds for `new noisy <s> <dims> 0 -`, and the flag is `true` on it -/
-example : (allOff ({ dims := [2], s := 1 } : Geom) : PSt Rat).flat = [1, 1] ∧
-    (allOff ({ dims := [2], s := 1 } : Geom) : PSt Rat).dark = [0, 0] ∧
-    pReads ({ dims := [2], s := 1 } : Geom) (allOff ({ dims := [2], s := 1 } : Geom) : PSt Rat)
+example : (allOff (Geom.uniform [2] 1) : PSt Rat).flat = [1, 1] ∧
+    (allOff (Geom.uniform [2] 1) : PSt Rat).dark = [0, 0] ∧
+    pReads (Geom.uniform [2] 1) (allOff (Geom.uniform [2] 1) : PSt Rat)
       [.setFlat [1, 1], .integrate [1, 2] 1 1, .setPhoton false, .readOut] = [(true, .image [1, 2])] := by
   refine ⟨by decide +kernel, by decide +kernel, by decide +kernel⟩
 
